@@ -124,6 +124,9 @@ TEMPLATES = [
     lambda t, u: '\\[' + t + '\\]{' + u + '}[w]',
     lambda t, u: '\\(\\a' + t + '{' + u + '}\\)',
     lambda t, u: '\\newcommand{\\n}[1]{' + t + '}[' + u + ']',
+    lambda t, u: '\\\\\\a' + t + '{' + u + '}',
+    lambda t, u: '2 \\\\\\hline' + t + '\n' + u + '\\\\\\\\x',
+    lambda t, u: '\\a' + t + '\\\\\\b ' + u + '\\\\[1pt]',
 ]
 NTEMPLATES = len(TEMPLATES)
 
